@@ -18,6 +18,8 @@ import (
 func init() { register(&Engine{Name: "conc", Gen: genConc}) }
 
 type concFixture struct {
+	inv2 *invocation.Token // shares the leaf delegation with inv, under another root
+	ld2  mapLoader
 	inv  *invocation.Token
 	dlgs []*delegation.Token
 	ld   mapLoader
@@ -33,29 +35,62 @@ func mkConcFixture(keys []principal, L int, ks []string) *concFixture {
 	var prf []cid.Cid
 	fixedNonce := []byte("verif-nonce-0123")
 	sub := keys[0]
+	polOf := func(n int, salt string) policy.Policy {
+		var cs []policy.Constructor
+		for j := 0; j < n; j++ {
+			cs = append(cs, policy.Equal("."+ks[0]+salt+fmt.Sprint(j)+"?", J("1")))
+		}
+		p, _ := policy.Construct(cs...)
+		return p
+	}
+	// every delegation goes through seal -> unseal: shared delegations are decoded ones in practice
+	decoded := func(d *delegation.Token, p *principal) *delegation.Token {
+		b, _, err := d.ToSealed(p.priv)
+		if err != nil {
+			panic(err)
+		}
+		d2, _, err := delegation.FromSealed(b)
+		if err != nil {
+			panic(err)
+		}
+		return d2
+	}
+	if L < 2 {
+		L = 2
+	}
 	for k := 0; k < L; k++ {
 		iss := keys[(k+1)%len(keys)]
 		if k == L-1 {
 			iss = sub
 		}
 		aud := keys[k%len(keys)]
-		pol, _ := policy.Construct(policy.Equal("."+ks[0]+"?", J("1")))
 		opts := []delegation.Option{delegation.WithSubject(sub.did), delegation.WithNonce(fixedNonce)}
 		for _, mk := range ks {
 			opts = append(opts, delegation.WithMeta(mk, "v"))
 		}
-		if k > 0 {
-			// chain alignment: this link's audience is the previous link's issuer
-			aud = keys[k%len(keys)]
-		}
-		d, err := delegation.New(iss.did, aud.did, command.Command("/"), pol, opts...)
+		d, err := delegation.New(iss.did, aud.did, command.Command("/"), polOf((len(ks)+3*k)%8, "a"), opts...)
 		if err != nil {
 			panic(err)
 		}
+		d = decoded(d, &iss)
 		ci := fakeCid(100 + k)
 		prf = append(prf, ci)
 		f.dlgs = append(f.dlgs, d)
 		f.ld[ci] = d
+	}
+	// second chain: same leaf (and middle links), another root with another policy
+	f.ld2 = mapLoader{}
+	for ci, d := range f.ld {
+		f.ld2[ci] = d
+	}
+	{
+		k := L - 1
+		aud := keys[k%len(keys)]
+		d, err := delegation.New(sub.did, aud.did, command.Command("/"), polOf(3, "b"), delegation.WithSubject(sub.did), delegation.WithNonce(fixedNonce))
+		if err != nil {
+			panic(err)
+		}
+		f.ld2[fakeCid(100+k)] = decoded(d, &sub)
 	}
 	opts := []invocation.Option{invocation.WithNonce(fixedNonce), invocation.WithoutInvokedAt()}
 	for i, k := range ks {
@@ -71,6 +106,11 @@ func mkConcFixture(keys []principal, L int, ks []string) *concFixture {
 		panic(err)
 	}
 	f.inv = inv
+	inv2, err := invocation.New(keys[0].did, sub.did, command.Command("/b"), prf, opts...)
+	if err != nil {
+		panic(err)
+	}
+	f.inv2 = inv2
 	f.iss = &keys[0]
 	return f
 }
@@ -89,6 +129,12 @@ func (f *concFixture) snapshot() string {
 		sb.WriteString("|")
 		for k, v := range d.Meta().Iter() {
 			sb.WriteString(k + "=" + string(WNode(v)) + ";")
+		}
+		// the policy, and the slots behind it in its backing array (nobody may have written there)
+		p := d.Policy()
+		sb.WriteString(p.String())
+		for _, st := range p[:cap(p)][len(p):] {
+			sb.WriteString(fmt.Sprint(st == nil))
 		}
 	}
 	return sb.String()
@@ -140,6 +186,7 @@ var concOps = []concOp{
 	}},
 	{"is_valid", func(fx *concFixture) string { return fmt.Sprint(fx.inv.IsValidNow(), fx.dlgs[0].IsValidNow()) }},
 	{"exec_allowed", func(fx *concFixture) string { return fmt.Sprint(fx.inv.ExecutionAllowed(fx.ld) == nil) }},
+	{"exec_allowed_2", func(fx *concFixture) string { return fmt.Sprint(fx.inv2.ExecutionAllowed(fx.ld2) == nil) }},
 	{"to_sealed", func(fx *concFixture) string {
 		b, _, err := fx.inv.ToSealed(fx.iss.priv)
 		if err != nil {
